@@ -339,7 +339,8 @@ class Flow:
 
     # -- small predicates ------------------------------------------------------------
     def text(self, expr: ast.AST, depth: int = 8, keep=frozenset()) -> str:
-        return " ".join(ast.unparse(self.expand(expr, depth, keep)).split())
+        from .match import txt as _txt
+        return _txt(self.expand(expr, depth, keep))
 
     def mentions(self, expr: ast.AST, name: str, depth: int = 10) -> bool:
         """Does the expanded expression mention the plain name (parameter / global)?"""
